@@ -287,6 +287,7 @@ type c13World struct {
 	setup   bool // writes of the fixture set-up are not part of the run
 	wiped   bool // the arbitrator log has been wiped (ChainArbitrator.ResolveContract)
 	mult    int  // patience factor (a plan that stalled is re-run alone with 3)
+	dead    bool // the run is over: goroutines that could not be stopped are refused
 
 	// crash control
 	writes    int // committed writes of the run
@@ -351,7 +352,7 @@ func c13b(b bool) int {
 func (w *c13World) note(a, h, k string) bool {
 	w.mu.Lock()
 	defer w.mu.Unlock()
-	if w.crashed {
+	if w.crashed || w.dead {
 		return false
 	}
 	w.emitLocked(a, "", h, k, "")
@@ -404,7 +405,7 @@ func (w *c13World) projectLocked() {
 func (w *c13World) durable(kind, h, k, lbl string, do func() error) error {
 	w.mu.Lock()
 	defer w.mu.Unlock()
-	if w.crashed {
+	if w.crashed || w.dead {
 		return verifkit.ErrCrashed
 	}
 	if w.crash != nil && w.crash.V == "B" && w.incWrites == w.crash.N {
@@ -843,9 +844,18 @@ func c13Boot(t *testing.T, w *c13World, db kvdb.Backend) (*c13Inc, error) {
 	return inc, nil
 }
 
-func (inc *c13Inc) shutdown(w *c13World) error {
+func (inc *c13Inc) shutdown(w *c13World, stalled bool) error {
 	if inc.arb == nil {
 		return nil
+	}
+	bound := w.patience(10 * time.Second)
+	if stalled {
+		// a node that does not answer will not stop either: its goroutines are abandoned (all its
+		// writes are refused from now on)
+		bound = 2 * time.Second
+		w.mu.Lock()
+		w.dead = true
+		w.mu.Unlock()
 	}
 	done := make(chan error, 1)
 	go func() {
@@ -862,7 +872,7 @@ func (inc *c13Inc) shutdown(w *c13World) error {
 	select {
 	case err := <-done:
 		return err
-	case <-time.After(w.patience(20 * time.Second)):
+	case <-time.After(bound):
 		return c13Stall{"Stop"}
 	}
 }
@@ -899,17 +909,17 @@ func c13Drive(w *c13World, inc *c13Inc, first bool, rng *rand.Rand) error {
 			respChan := make(chan *wire.MsgTx, 1)
 			select {
 			case arb.forceCloseReqs <- &forceCloseReq{errResp: errChan, closeTx: respChan}:
-			case <-time.After(w.patience(15 * time.Second)):
+			case <-time.After(w.patience(10 * time.Second)):
 				return c13Stall{"ForceCloseRequest"}
 			}
 			select {
 			case <-respChan:
-			case <-time.After(w.patience(15 * time.Second)):
+			case <-time.After(w.patience(10 * time.Second)):
 				return c13Stall{"ForceCloseResponse"}
 			}
 			select {
 			case <-errChan:
-			case <-time.After(w.patience(15 * time.Second)):
+			case <-time.After(w.patience(10 * time.Second)):
 				return c13Stall{"ForceCloseResponse"}
 			}
 		}
@@ -984,7 +994,7 @@ func c13Drive(w *c13World, inc *c13Inc, first bool, rng *rand.Rand) error {
 						if w.isCrashed() || exited() {
 							break wait
 						}
-						if time.Since(t0) > w.patience(15*time.Second) {
+						if time.Since(t0) > w.patience(10*time.Second) {
 							return c13Stall{fmt.Sprintf("ProcessBlock(%d)", height)}
 						}
 					}
@@ -1197,7 +1207,8 @@ func c13Run(t *testing.T, plan c13Plan, rng *rand.Rand, mult int) ([]c13Line, in
 			return w.lines, 0, false, fmt.Errorf("boot %d: %w", i, err)
 		}
 		derr := c13Drive(w, inc, i == 0, rng)
-		serr := inc.shutdown(w)
+		_, stalledNow := derr.(c13Stall)
+		serr := inc.shutdown(w, stalledNow)
 		if derr == nil {
 			derr = serr
 		}
@@ -1262,6 +1273,7 @@ func TestVerifC13Arbitrator(t *testing.T) {
 		stalled bool
 		err     error
 	}
+	confirmed := map[string]bool{} // scenarios in which a stall has been confirmed by a run alone
 	base := 0
 	runAll := func(plans []c13Plan) []result {
 		res := make([]result, len(plans))
@@ -1291,12 +1303,15 @@ func TestVerifC13Arbitrator(t *testing.T) {
 		// a run in which the live node stopped answering is repeated alone with three times the
 		// patience: only what stalls again is recorded as a stall
 		for i := range res {
-			if res[i].err == nil && res[i].stalled {
+			if res[i].err == nil && res[i].stalled && !confirmed[plans[i].Sc] {
 				r := rand.New(rand.NewSource(seed*1000003 + int64(off+i)))
 				progress("again " + plans[i].String())
 				lines, n, st, err := c13Run(t, plans[i], r, 3)
 				t.Logf("STALL plan=%s repeated alone with 3x patience: stalled again=%v", plans[i], st)
 				res[i] = result{lines, n, st, err}
+				if err == nil && st {
+					confirmed[plans[i].Sc] = true
+				}
 			}
 		}
 		return res
